@@ -265,22 +265,30 @@ func c05Expiry(ev *vlib.Evidence, idx int) {
 	defer bs.Close()
 	window := 2 * time.Second
 	bs.VerifSetNonceExpire(window)
+	// the nonce is dated `ahead` of now; it stays fresh until ahead+window. The
+	// replay comes after max(window, ahead)+1.3 s: later than any TTL that
+	// ignores part of that sum, earlier than the nonce going stale.
+	ahead := []time.Duration{1500 * time.Millisecond, 3 * time.Second, 5 * time.Second}[idx%3]
+	wait := window
+	if ahead > wait {
+		wait = ahead
+	}
+	wait += 1300 * time.Millisecond
 	id := fmt.Sprintf("expiry-%d", idx)
 	t0 := time.Now()
-	n := t0.Add(1500 * time.Millisecond).UnixNano()
+	n := t0.Add(ahead).UnixNano()
 	first := bs.CheckAndSaveNonce(id, n)
-	time.Sleep(2300 * time.Millisecond)
+	time.Sleep(wait)
 	elapsed := time.Since(t0)
-	if elapsed > 3200*time.Millisecond {
+	if elapsed > ahead+window-500*time.Millisecond {
 		ev.Inconclusive("expiry-timing")
 		return
 	}
-	// nonce is dated t0+1.5s; now is t0+2.3..3.2s; window 2s => still fresh
 	replay := bs.CheckAndSaveNonce(id, n)
-	ev.Case(fmt.Sprintf("expiry %d", idx), true)
+	ev.Case(fmt.Sprintf("expiry ahead=%s idx=%d", ahead, idx), true)
 	ev.Count("expiry-cases", 1)
 	if first != nil || replay == nil {
-		ev.Violate("expiry:mark-forgotten-while-nonce-still-fresh", map[string]interface{}{"first": fmt.Sprint(first), "replay": fmt.Sprint(replay), "window": window.String(), "nonce_ahead_of_now": "1.5s", "replayed_after": elapsed.String()})
+		ev.Violate("expiry:mark-forgotten-while-nonce-still-fresh", map[string]interface{}{"first": fmt.Sprint(first), "replay": fmt.Sprint(replay), "window": window.String(), "nonce_ahead_of_now": ahead.String(), "replayed_after": elapsed.String()})
 	}
 }
 
@@ -299,7 +307,7 @@ func TestC05(t *testing.T) {
 		c05Reopen(ev, i)
 	}
 	var wg sync.WaitGroup
-	for i := 0; i < vlib.Scale(3, 16); i++ {
+	for i := 0; i < vlib.Scale(6, 30); i++ {
 		wg.Add(1)
 		go func(i int) { defer wg.Done(); c05Expiry(ev, i) }(i)
 	}
